@@ -142,24 +142,80 @@ func c08Generate(r *common.Rand) mCase {
 	return c
 }
 
+// ---- exhaustive sub-space (thorough tier) --------------------------------
+// All interleavings of two children's scripts with at most 7 messages in total,
+// after one REQ (limit 2, kind 1): which of the orders the scheduler could
+// produce is irrelevant, every one of them is executed.
+
+func interleavings(a, b []*mMsg) [][]mStep {
+	if len(a) == 0 && len(b) == 0 {
+		return [][]mStep{{}}
+	}
+	var out [][]mStep
+	if len(a) > 0 {
+		for _, rest := range interleavings(a[1:], b) {
+			out = append(out, append([]mStep{{K: "child", I: 0, M: a[0]}}, rest...))
+		}
+	}
+	if len(b) > 0 {
+		for _, rest := range interleavings(a, b[1:]) {
+			out = append(out, append([]mStep{{K: "child", I: 1, M: b[0]}}, rest...))
+		}
+	}
+	return out
+}
+
+func c08Exhaustive() []mCase {
+	ev := func(id string, ts int64, kind int64) *mMsg {
+		return &mMsg{T: "event", Sub: "s1", E: &common.JEvent{ID: id, PK: "p", TS: ts, Kind: kind, Tags: [][]string{}}}
+	}
+	eose := &mMsg{T: "eose", Sub: "s1"}
+	a, b, c, d, x := ev("a", 5, 1), ev("b", 3, 1), ev("c", 3, 1), ev("d", 1, 1), ev("x", 4, 7)
+	scripts := [][2][]*mMsg{
+		{{a, b, eose}, {a, c, eose}},    // overlapping stored sets, a tie at ts 3
+		{{a, b, d, eose}, {c, eose, a}}, // limit reached; live event after one EOSE
+		{{b, a, eose}, {a, eose}},       // a child that does not sort
+		{{a, eose, d}, {x, b, eose, c}}, // non-matching event; live events after the merged EOSE
+		{{a, a, eose}, {eose, b}},       // a child that repeats itself; EOSE first
+		{{eose, eose, a}, {b, eose}},    // a second EOSE from the same child
+	}
+	req := mStep{K: "req", Sub: "s1", Fs: []common.JFilter{{Kinds: &[]int64{1}, Limit: common.Ptr(int64(2))}}}
+	var out []mCase
+	for _, sp := range scripts {
+		for _, il := range interleavings(sp[0], sp[1]) {
+			out = append(out, mCase{N: 2, Steps: append([]mStep{req}, il...)})
+		}
+	}
+	return out
+}
+
+const mergeExhaustiveFrom = 10000 // case counts of the thorough tier
+
 func init() {
 	subcmds["c08"] = func(seed uint64, n int, out *common.Out, replay string) {
+		if mergeWorkerMode() {
+			mergeWorker()
+			return
+		}
+		var cases []mCase
 		if replay != "" {
 			for _, raw := range common.ReadLines(replay) {
 				var c mCase
 				if err := json.Unmarshal(raw, &c); err != nil {
 					common.Fatalf("bad replay case: %v", err)
 				}
-				stripMergeOutputs(&c)
-				runMerge(&c)
-				out.Emit(c)
+				cases = append(cases, c)
 			}
-			return
+		} else {
+			root := common.NewRand(seed)
+			if n >= mergeExhaustiveFrom {
+				cases = append(cases, c08Exhaustive()...)
+			}
+			for i := 0; i < n; i++ {
+				cases = append(cases, c08Generate(root.Fork(uint64(i))))
+			}
 		}
-		root := common.NewRand(seed)
-		for i := 0; i < n; i++ {
-			c := c08Generate(root.Fork(uint64(i)))
-			runMerge(&c)
+		for _, c := range runMergeAll("c08", cases) {
 			out.Emit(c)
 		}
 	}
